@@ -283,6 +283,29 @@ fn main() {
     // is irrelevant: point the default verify paths at a one-certificate bundle and an empty dir.
     std::env::set_var("SSL_CERT_FILE", format!("{}/certs/systemstore.pem", verif_dir()));
     std::env::set_var("SSL_CERT_DIR", format!("{}/certs/empty-dir", verif_dir()));
+    // a logger that lets everything through and formats every record of the library into nothing: the
+    // arguments of `debug!`/`warn!` are code too (they see peer-chosen text), and without a logger they never run
+    struct Sink;
+    impl std::fmt::Write for Sink {
+        fn write_str(&mut self, _s: &str) -> std::fmt::Result {
+            Ok(())
+        }
+    }
+    struct EvalLogger;
+    impl log::Log for EvalLogger {
+        fn enabled(&self, m: &log::Metadata) -> bool {
+            m.target().starts_with("attohttpc")
+        }
+        fn log(&self, r: &log::Record) {
+            if self.enabled(r.metadata()) {
+                let _ = std::fmt::Write::write_fmt(&mut Sink, *r.args());
+            }
+        }
+        fn flush(&self) {}
+    }
+    static LOGGER: EvalLogger = EvalLogger;
+    let _ = log::set_logger(&LOGGER);
+    log::set_max_level(log::LevelFilter::Trace);
     let args: Vec<String> = std::env::args().collect();
     let code = match args.get(1).map(|s| s.as_str()) {
         Some("run") => cmd_run(&args[2..]),
